@@ -73,9 +73,9 @@ func checkEqualNames(cs scalekit.Case) scalekit.Verdict {
 	if order.Active() && cs.N >= 7 && cs.N <= 10 {
 		explore.DFS(1, func(x *explore.X) {
 			order.Install(func(n int, site string) int { return x.Choose(n, site) })
-			ms := yang.NewModules()
+			ms := scalekit.NewModules()
 			for _, f := range files {
-				ms.Parse(f.Text, f.Name)
+				ms.Parse(scalekit.Text(f.Text), f.Name)
 			}
 			ms.Process()
 			order.Install(nil)
